@@ -361,7 +361,12 @@ Section Check.
     let size := fsize t in
     chk (match t with TByteVector _ | TBitvector _ => true | _ => false end) (name ++ ": a [n]byte type must be a ByteVector or Bitvector in the schema") +++
     chk (alen =? size) (name ++ ": array length differs from the schema's byte size") +++
-    chk (match g_deser g with MReadArray => true | m => custom_ok name "Deserialize" m end) (name ++ ".Deserialize: not a plain read of the array") +++
+    chk (match g_deser g, t with
+         | MReadArray, TByteVector _ => true
+         | MReadArray, TBitvector n => n mod 8 =? 0           (* no padding bits to police *)
+         | MBitVector e, TBitvector n => ev_is None e n      (* read + BitvectorCheck(n) *)
+         | m, _ => custom_ok name "Deserialize" m
+         end) (name ++ ".Deserialize: not a plain read of the array (byte vector) / read with padding check (bitvector)") +++
     chk (match g_ser g with MWriteBytes => true | m => custom_ok name "Serialize" m end) (name ++ ".Serialize: not a plain write of the array") +++
     chk (match g_blen g with MExp e => ev_is None e size | m => custom_ok name "ByteLength" m end) (name ++ ".ByteLength: not the array size") +++
     chk (match g_flen g with MExp e => ev_is None e size | m => custom_ok name "FixedLength" m end) (name ++ ".FixedLength: not the array size") +++
@@ -554,9 +559,8 @@ End Check.
 
 (* hand-written method bodies that match no idiom, reviewed on the pinned snapshot (fingerprint = first 6 bytes
    of SHA-256 of the printed body); any edit changes the fingerprint and fails the obligation:
-   - JustificationBits: one byte read / written directly (Bitvector[4] in one byte);
+   - JustificationBits.Serialize: the single byte written directly (Bitvector[4] in one byte);
    - LogsBloom.HashTreeRoot: 8 chunks of 32 bytes hashed pairwise in three levels (= merkleize of 256 bytes). *)
 Definition reviewed_bodies : list (string * string) := [
-  ("common.JustificationBits/Deserialize", "a7680ec32320");
   ("common.JustificationBits/Serialize", "d8a288f40f23");
   ("common.LogsBloom/HashTreeRoot", "a513d7fca844")].
